@@ -69,6 +69,13 @@ def restrict(basis, rng, nmax):
         keep = set(rng.sample(ks, nmax))
         # keep elements with ECPs / fused shells with preference
         b['elements'] = {k: v for k, v in b['elements'].items() if k in keep}
+        # what get_basis(elements=<the kept ones>) returns: the function types present in the kept elements
+        types = set()
+        for el in b['elements'].values():
+            types.update(sh['function_type'] for sh in el.get('electron_shells', []))
+            types.update(p['ecp_type'] for p in el.get('ecp_potentials', []))
+        if 'function_types' in b:
+            b['function_types'] = sorted(types)
     return b
 
 
